@@ -21,8 +21,8 @@ from gen.typedefgen import TypedefGen
 from gen.ambiggen import AmbigGen
 from gen.typedgen import tests as typed_tests, program as typed_program, has_initializer
 
-STD = {"c89": 0, "c99": 1, "c11": 2, "c17": 3}
-GCCSTD = {"c89": "c90", "c99": "c99", "c11": "c11", "c17": "c17"}
+STD = {"c89": 0, "c99": 1, "c11": 2, "c17": 3, "gnu11": 2}
+GCCSTD = {"c89": "c90", "c99": "c99", "c11": "c11", "c17": "c17", "gnu11": "gnu11"}
 CTX_IDS = ("Parser-308", "Parser-309", "Parser-310", "Parser-311")
 
 # valid (GNU) C the parser rejects: recorded finding.  The shapes a symbol-table-free parser reads WRONGLY but without error
@@ -138,6 +138,10 @@ def run(ctx):
             progs.append(("cgen-kr", "c11", Gen(r, typed=True, gnu=False, kr=True, maxdepth=3).program()))
         else:
             progs.append(("cgen-c99", "c99", Gen(r, typed=True, gnu=False, maxdepth=3).program()))
+    # GNU forms (attributes, asm, typeof, statement expressions, labels as values, case ranges ...) with gcc -std=gnu11 as the judge and the
+    # parser's default extension switches
+    for i in range(40 if ctx.quick else 800):
+        progs.append(("cgen-gnu", "gnu11", Gen(random.Random(rng.randrange(1 << 30)), typed=True, gnu=True, kr=(i % 5 == 0), maxdepth=3 + i % 3).program()))
     amb = AmbigGen(random.Random(ctx.seed)).all_cases()
     for c in amb[:: (12 if ctx.quick else 1)]:
         progs.append(("ambiggen", "c11", c["text"]))
@@ -157,7 +161,7 @@ def run(ctx):
     def gcc_ok(p):
         fam, std, text = p
         # c11: plain acceptance; older dialects: pedantic errors ON (no -w), so that C11-only keywords are not let through as extensions
-        flags = ["-w"] if std == "c11" else ["-pedantic-errors", "-Wno-unused", "-Wno-overflow"]
+        flags = ["-w"] if std in ("c11", "gnu11") else ["-pedantic-errors", "-Wno-unused", "-Wno-overflow"]
         rc, _, err = sh(["gcc", "-std=" + GCCSTD[std], "-fsyntax-only"] + flags + ["-x", "c", "-"], input=text)
         return rc == 0, err
     with concurrent.futures.ThreadPoolExecutor(16) as ex:
@@ -211,7 +215,7 @@ def run(ctx):
     })
     ctx.notes.update({"nestings": len(nest), "valid_nestings": nvalid, "programs_parsed": len(lines), "families": dict(fams), "rejected_by_gcc_and_dropped": dict(rej_gcc), "violations": nviol})
     ctx.assumptions += ["gcc 12 -fsyntax-only (with -pedantic-errors for c99) is the judge of validity; programs it rejects are dropped and counted",
-                        "GNU-only programs are exercised by C03/C14's corpus without a validity judge and are not part of this sweep",
+                        "GNU programs are judged by gcc -std=gnu11 and parsed with the default extension switches",
                         "the generators avoid the recorded blind spots of symbol-table-free parsing (see BLIND), which are replayed separately as known findings"]
     if not proved:
         stages.lean_unproved(ctx, "C04", "PsycheModel.Props.C04")
